@@ -6,7 +6,7 @@
    would mean no follow-up question ever again (the seeded change C04-m6 produces exactly that). *)
 From Coq Require Import List NArith Bool Lia.
 From Mdns Require Import Res Bytes Rec Wire Txt ParamsBrowser ParamsBrowserPinned Cache Browser C03Spec
-  BrowserProofs BrowserStepProofs SpecTrackProofs C04ScheduleProofs.
+  BrowserSpec BrowserProofs BrowserStepProofs SpecTrackProofs C04ScheduleProofs.
 Import ListNotations.
 Open Scope N_scope.
 
@@ -164,4 +164,26 @@ Proof.
   intros Hwf Hne Hi. destruct (pending_has_followup_queued ifs h i Hi) as (t & n & Hin).
   pose proof (followup_schedule_invariant ifs h Hwf Hne) as Hs. rewrite Forall_forall in Hs.
   specialize (Hs _ Hin). unfold sched_p in Hs. simpl in Hs. exists t, n. tauto.
+Qed.
+
+(* ---- the bridge to the checker's follow-up clause ------------------------------------------------------------- *)
+(* a try asks exactly the question the checker expects (BrowserSpec.expected_followup, judged on
+   the same cache): (instance, ANY) while no SRV is cached, else (host, A) + (host, AAAA) for the
+   first SRV target without address bucket, nothing when nothing is missing, when the name is not a
+   valid instance name, or - fix 48ec5c0 - when no PTR record points to the instance *)
+Theorem try_asks_expected s now inst n :
+  snd (exec_resolve s now inst n)
+  = match BrowserSpec.expected_followup (s_cache s) inst with
+    | Some (nm, ty) => if ty =? TY_ANY then [OQuery [(nm, TY_ANY)]] else [OQuery [(nm, TY_A); (nm, TY_AAAA)]]
+    | None => []
+    end.
+Proof.
+  unfold exec_resolve, BrowserSpec.expected_followup, query_unresolved.
+  destruct (negb (valid_instance_name inst)) eqn:Ev.
+  - destruct (has_ptr_to (s_cache s) inst); reflexivity.
+  - destruct (has_ptr_to (s_cache s) inst); simpl; [|reflexivity].
+    destruct (bm_get inst (c_srv (s_cache s))) as [recs|].
+    + destruct (find _ recs) as [e|]; simpl; [|reflexivity].
+      destruct (retry_guard n max_try); reflexivity.
+    + simpl. destruct (retry_guard n max_try); reflexivity.
 Qed.
